@@ -516,6 +516,9 @@ def replay_loop(cex, props):
                 oracle_run(w, props, bad, tag="[first run]")
                 w.kernel_inputs = []
                 w.run()
+                k_run = len(w.kernel_inputs) - (1 if cfg.get("n_final") else 0)
+                if "C08" in props and len(w.sampler.history.log_norm_ratio) != k_run:
+                    bad.append(f"C08[second run on the same sampler]: {len(w.sampler.history.log_norm_ratio)} per-step ratios are summed for a run of {k_run} iterations")
                 info = oracle_run(w, props - {"C17"}, bad, tag="[second run on the same sampler]")
             elif flow == "resume":
                 info = _replay_resume(cex, model, props, bad, tmp)
